@@ -422,7 +422,7 @@ func rulesC19(w *World, o *Out) {
 				switch cal.Name {
 				case "Address":
 					hasAddr = true
-				case "GetSignaturesV2", "String", "AccAddress":
+				case "GetSignaturesV2", "String", "AccAddress", "Bytes":
 				default:
 					odd = append(odd, cal.String())
 				}
